@@ -325,16 +325,17 @@ pub fn run(seed: u64, ntraces: usize) {
                         _ => if is_egld { (amt + gasv, vec![]) } else { (0, vec![(ttok.clone(), 0, bn(amt + gasv))]) },
                     };
                     let dchain = if let Some((_, ch)) = fshape { [&b"ethereum"[..], b"avalanche", b"axelar", b"unknown"][ch as usize].to_vec() } else { r.pick(&[&b"ethereum"[..], b"avalanche", b"polygon", b"axelar", b"unknown", b"ethereum"]).to_vec() };
-                    let daddr = if fshape.is_none() && r.chance(1, 10) { vec![] } else { b"0xdestination".to_vec() };
+                    // destination addresses and data also longer than one ABI word and not word aligned (textual addresses of other chains)
+                    let daddr = if fshape.is_none() && r.chance(1, 10) { vec![] } else { match r.below(6) { 0 => r.bytes(40), 1 => r.bytes(33), 2 => r.bytes(64), _ => b"0xdestination".to_vec() } };
                     let before_c = g.toks[ti].custody;
                     let _ = before_c;
                     if a == 4 {
-                        let md = match if fshape.is_some() { 0 } else { r.below(5) } { 0 => vec![], 1 => vec![0, 0, 0, 0], 2 => { let mut v = vec![0, 0, 0, 0]; v.extend(nested_buf(b"hello")); v }, 3 => vec![0, 0, 0, 1], _ => vec![1, 2] };
+                        let md = match if fshape.is_some() { 0 } else { r.below(5) } { 0 => vec![], 1 => vec![0, 0, 0, 0], 2 => { let mut v = vec![0, 0, 0, 0]; v.extend(nested_buf(&if r.chance(1, 2) { r.bytes(45) } else { b"hello".to_vec() })); v }, 3 => vec![0, 0, 0, 1], _ => vec![1, 2] };
                         let (ok, _, _) = g.its_tx("transfer", &anyone, "interchainTransfer", vec![tid.clone(), dchain.clone(), daddr.clone(), md.clone(), big(gasv)], egld, &esdt,
                             json!({"token_id": hx(&tid), "dchain": hx(&dchain), "daddr": hx(&daddr), "metadata": hx(&md), "gas": gasv.to_string()}));
                         if ok { g.toks[ti].custody += amt; }
                     } else {
-                        let data = if fshape.is_none() && r.chance(1, 6) { vec![] } else { b"calldata".to_vec() };
+                        let data = if fshape.is_none() && r.chance(1, 6) { vec![] } else { match r.below(5) { 0 => r.bytes(50), 1 => r.bytes(32), 2 => r.bytes(97), _ => b"calldata".to_vec() } };
                         let (ok, _, _) = g.its_tx("callContract", &anyone, "callContractWithInterchainToken", vec![tid.clone(), dchain.clone(), daddr.clone(), data.clone(), big(gasv)], egld, &esdt,
                             json!({"token_id": hx(&tid), "dchain": hx(&dchain), "daddr": hx(&daddr), "data": hx(&data), "gas": gasv.to_string()}));
                         if ok { g.toks[ti].custody += amt; }
@@ -349,8 +350,10 @@ pub fn run(seed: u64, ntraces: usize) {
                     let amount = if fvar.is_some() { 1 + r.below(maxa.min(15)) } else { match r.below(6) { 0 => maxa, 1 => maxa + 1, _ => 1 + r.below(maxa) } };
                     let inner = match a {
                         6 => { let recipient = if fvar.is_none() && r.chance(1, 8) { let mut v = r.pick(&g.users).to_vec(); match r.below(4) { 0 => vec![1, 2, 3], 1 => { v.push(7); v }, 2 => { v.truncate(31); v }, _ => { v.extend_from_slice(&[0u8; 32]); v } } } else if r.chance(1, 8) { g.toks.first().map(|t| t.tm.to_vec()).unwrap_or(g.dest.to_vec()) } else { r.pick(&g.users).to_vec() };
-                               transfer_payload(&tid, b"0xsender", &recipient, amount, b"") }
-                        7 => transfer_payload(&tid, b"0xsender", g.dest.as_bytes(), amount, b"with-data"),
+                               let osrc = match r.below(4) { 0 => r.bytes(40), 1 => vec![], _ => b"0xsender".to_vec() };
+                               transfer_payload(&tid, &osrc, &recipient, amount, b"") }
+                        7 => { let osrc = match r.below(4) { 0 => r.bytes(33), _ => b"0xsender".to_vec() }; let data = match r.below(4) { 0 => r.bytes(70), 1 => r.bytes(32), _ => b"with-data".to_vec() };
+                               transfer_payload(&tid, &osrc, g.dest.as_bytes(), amount, &data) }
                         _ => if fdeploy { deploy_payload(&r.bytes(32), b"Remote", b"RMT", 6, g.users[1].as_bytes()) } else if fbound == Some(2) { deploy_payload(&tid, b"Remote", b"RMT", 6, &[]) } else if fbound.is_none() && r.chance(2, 3) {
                                 let existing: Vec<&Tok> = g.toks.iter().filter(|t| t.kind == "remote-native").collect();
                                 let tid2 = if !existing.is_empty() && r.chance(2, 3) { existing[0].id.clone() } else { r.bytes(32) };
